@@ -548,7 +548,19 @@ def inclusion(run, R="INC"):
         run.check(n_sep >= 2 and not raw_ops, R, R + "|navigate|separators-normalised", nav.loc(),
                   "every separator-sensitive test or split in filename_navigate reads the spelling with `\\` replaced by `/` (%d operation(s))" % n_sep,
                   "filename_navigate tests or splits a path as written, before `\\` is turned into `/` (%s): the backslash spelling of a path would be resolved differently from its forward-slash spelling" % raw_ops)
-        run.check(stack_ok, R, R + "|navigate|all-components-tested", nav.loc(), "every component of the result (from the including file's path as well as from the written path) went through the `..` test",
+        # `.` and empty components are no directories: every list of components that `..` can pop from has been through the filter
+        # that drops them (the written path is; the including file's own path has to be as well)
+        unfiltered = []
+        for bi_, t_ in nav.calls():
+            if (t_.get("callee") or "").endswith("<impl str>::split") and len(t_["args"]) >= 2 and "/" in _deep(nav, t_["args"][1], 3):
+                d_ = _deep(nav, {"copy": t_["dest"]}, 3)
+                used_in_filter = any((t2.get("callee") or "").endswith("Iterator::filter") and d_ in _deep(nav, t2["args"][0], 5) for _, t2 in nav.calls())
+                if not used_in_filter:
+                    unfiltered.append(_deep(nav, t_["args"][0], 4)[:50])
+        run.check(not unfiltered, R, R + "|navigate|dot-components-collapsed", nav.loc(),
+                  "`.` and empty components are dropped from both paths before `..` is collapsed",
+                  "filename_navigate splits `%s` into components without dropping `.` and empty ones: a `..` then pops such a component instead of a directory, so with a root file given as `./main.asm` (or `sub//m.asm`) the path `../x.asm` is accepted and names a file outside the root file's directory" % ", ".join(unfiltered))
+                run.check(stack_ok, R, R + "|navigate|all-components-tested", nav.loc(), "every component of the result (from the including file's path as well as from the written path) went through the `..` test",
                   "filename_navigate: %s: `..` components in the including file's own path survive into the result, so a root file given as `../x/main.asm` can name files outside the working directory" % why_s)
         run.check(found, R, R + "|navigate|dotdot-confined", nav.loc(), "`..` with nothing left to pop is reported and rejected", "filename_navigate no longer rejects `..` past the start of the path")
     # real file system only behind `!is_std_path`, and only inside the file server
